@@ -107,6 +107,32 @@ class BreakerWorld:
         for _, f in self.inv(last):
             it.path.assume(f)
         self.snapshot()
+        self.install_replay()
+
+    def install_replay(self):
+        """concrete breaker state + operation from a counter-model (for native replay)"""
+        from pyvc.modelval import arr_slice, val
+        it, pth = self.it, self.it.path
+        f0 = self.pre["f"]
+        b0 = {n: self.pre["buckets"][n] for n in self.members}
+        st0, op0, pr0 = self.pre["state"], self.pre["opened"], self.pre["probe"]
+
+        def spec(m):
+            names = {0: "CLOSED", 1: "OPEN", 2: "HALF_OPEN"}
+            state = next(n for n in ("CLOSED", "OPEN", "HALF_OPEN") if val(m, st0 == it.enum_const(self.sc, n)) is True)
+            opened = None if val(m, op0.none) is True else val(m, op0.val.t)
+            buckets = {}
+            for n, (none0, d0, snap) in b0.items():
+                if d0 is not None and val(m, none0) is False:
+                    buckets[n] = arr_slice(m, snap[0], snap[1], snap[2])
+            return {"component": "breaker", "op": pth.ghost.get("replay_op"), "klass": pth.ghost.get("replay_klass"),
+                    "failure_threshold": val(m, self.thr), "window_s": val(m, self.w), "recovery_timeout_s": val(m, self.rt),
+                    "trip_on": [n for n in self.members if val(m, self.in_trip(n)) is True],
+                    "class_thresholds": {n: val(m, self.cthr_val(n)) for n in self.members if val(m, self.cthr_defined(n)) is True},
+                    "state": state, "opened_at": opened, "probe": val(m, pr0), "failures": arr_slice(m, f0[0], f0[1], f0[2]),
+                    "buckets": buckets, "now": val(m, pth.ghost["now"])}
+
+        pth.replay_spec = spec
 
     # ghost updates attached to deque operations
     def _on_mutation(self, it, obj, what):
@@ -287,6 +313,7 @@ def t_record_failure(it, member_index=None):
         wld = BreakerWorld(it, klass_name=k, state=state, bucket_present=present)
         it.path.ghost["world"] = wld
         klass = it.enum_member(ec, k)
+        it.path.ghost["replay_op"], it.path.ghost["replay_klass"] = "record_failure", k
         r = call_catch(it, BoundV(wld.obj, FuncV(tree.func(fn))), [klass])
         if r[0] == "exc":
             it.path.oblige(f"{fn}/raises/none", False, prop="C06")
@@ -389,6 +416,7 @@ def t_record_success(it):
         state = STATES[it.path.choose(3, "state")]
         wld = BreakerWorld(it, state=state)
         it.path.ghost["world"] = wld
+        it.path.ghost["replay_op"] = fn.rsplit(".", 1)[1]
         r = call_catch(it, BoundV(wld.obj, FuncV(tree.func(fn))), [])
         if r[0] == "exc":
             it.path.oblige(f"{fn}/raises/none", False, prop="C07")
@@ -421,6 +449,7 @@ def t_record_cancel(it):
         state = STATES[it.path.choose(3, "state")]
         wld = BreakerWorld(it, state=state)
         it.path.ghost["world"] = wld
+        it.path.ghost["replay_op"] = fn.rsplit(".", 1)[1]
         r = call_catch(it, BoundV(wld.obj, FuncV(tree.func(fn))), [])
         if r[0] == "exc":
             it.path.oblige(f"{fn}/raises/none", False, prop="C07")
@@ -449,6 +478,7 @@ def t_allow(it):
         state = STATES[it.path.choose(3, "state")]
         wld = BreakerWorld(it, state=state)
         it.path.ghost["world"] = wld
+        it.path.ghost["replay_op"] = fn.rsplit(".", 1)[1]
         r = call_catch(it, BoundV(wld.obj, FuncV(tree.func(fn))), [])
         if r[0] == "exc":
             it.path.oblige(f"{fn}/raises/none", False, prop="C07")
@@ -648,3 +678,6 @@ for _t in TASKS:
 for _t in TASKS:
     if _t.name.startswith("circuit.record_failure[") or _t.name == "circuit.__init__":
         _t.weight = 10
+
+for _t in TASKS:
+    _t.replay_script = "model_replay.py"
